@@ -294,24 +294,32 @@ func strJSON(inJSON []byte) string {
 	return out.String()
 }
 
+// StrDecimal64 writes digits * 10^-precision as decimal text: the sign, at least one integer digit and exactly
+// precision fraction digits (no fraction part when the precision is 0)
+func StrDecimal64(digits int64, precision uint32) string {
+	if precision == 0 {
+		return strconv.FormatInt(digits, 10)
+	}
+	magnitude := uint64(digits)
+	if digits < 0 {
+		magnitude = -magnitude
+	}
+	text := strconv.FormatUint(magnitude, 10)
+	if len(text) <= int(precision) {
+		text = strings.Repeat("0", int(precision)+1-len(text)) + text
+	}
+	text = text[:len(text)-int(precision)] + "." + text[len(text)-int(precision):]
+	if digits < 0 {
+		text = "-" + text
+	}
+	return text
+}
+
 func strDecimal64(d *pb.Decimal64) string {
-	var i, frac int64
-	if d.Precision > 0 {
-		div := int64(10)
-		it := d.Precision - 1
-		for it > 0 {
-			div *= 10
-			it--
-		}
-		i = d.Digits / div
-		frac = d.Digits % div
-	} else {
-		i = d.Digits
+	if d.Precision == 0 {
+		return strconv.FormatInt(d.Digits, 10) + ".0"
 	}
-	if frac < 0 {
-		frac = -frac
-	}
-	return fmt.Sprintf("%d.%d", i, frac)
+	return StrDecimal64(d.Digits, d.Precision)
 }
 
 // strLeafList builds a human-readable form of a leaf-list. e.g. [1, 2, 3] or [a, b, c]
